@@ -1,6 +1,846 @@
-//! C07 monitor (not built yet)
-use vcore::{Args, Report};
+//! C07 — packet numbers are never reused and always decode to the number sent.
+//!
+//! (a) Ledger over real assemblies: histories over `ArcSentJournal::new_packet()` guards driven through
+//!     `qconnection::tx::{PacketWriter,TrivialPacketWriter}` with real keys, exactly in the shape of
+//!     `PacketsAssembler::assemble` / `assemble_closing_packet` (new writer -> `assemble_packet(Packages((sources, PadTo20)))`
+//!     -> on Err drop the writer, on Ok `encrypt_and_protect_packet`), interleaved with `rotate()` ack / loss /
+//!     fast-retransmit operations, virtual-time advances (expiry in `resize`), two paths with different timeouts
+//!     alternating on the journals.  Oracle: per space the pn of *built* packets is strictly increasing; the
+//!     nonce actually used on the wire (checked by opening the packet with rustls keys) is that pn; the truncated
+//!     pn on the wire reconstructs to pn for a receiver at largest-acked+1 and at pn.
+//! (b) Pure sweep of `PacketNumber::encode` -> wire bytes -> `take_pn_len` -> `decode(expected)`.
+use bytes::{BufMut, Bytes};
+use qbase::{
+    cid::ConnectionId,
+    error::ErrorKind,
+    frame::{
+        AckFrame, ConnectionCloseFrame, CryptoFrame, Frame, FrameType, MaxDataFrame, PaddingFrame, PathChallengeFrame, PingFrame, StreamFrame,
+    },
+    net::tx::Signals,
+    packet::{
+        AssemblePacket, Package, PacketContent, PacketNumber, RecordFrame, WritePacketNumber,
+        header::{LongHeaderBuilder, OneRttHeader},
+        io::{Packages, PadTo20},
+        keys::DirectionalKeys,
+        signal::{KeyPhaseBit, SpinBit},
+        take_pn_len,
+    },
+    util::{NonData, WriteData},
+    varint::VarInt,
+};
+use qconnection::{
+    GuaranteedFrame,
+    tx::{PacketWriter, TrivialPacketWriter},
+};
+use qrecovery::journal::ArcSentJournal;
+use serde_json::{Value, json};
+use std::time::Duration;
+use vcore::{Args, Report, Rng};
 
-pub fn run(_args: &Args, rep: &mut Report) {
-    rep.inconclusive("monitor not built yet");
+use crate::{
+    c06::{PType, payload_offset, ref_open},
+    pktkeys,
+};
+
+// ---------------------------------------------------------------------------------------------
+// (b) pure encode/decode sweep
+// ---------------------------------------------------------------------------------------------
+
+fn wire_decode(pn: u64, acked: u64, expected: u64) -> (u64, usize) {
+    let enc = PacketNumber::encode(pn, acked);
+    let mut buf = [0u8; 4];
+    let mut w = &mut buf[..];
+    w.put_packet_number(enc);
+    let (_, parsed) = take_pn_len(enc.size() as u8)(&buf[..enc.size()]).unwrap();
+    (parsed.decode(expected), enc.size())
+}
+
+fn check_triple(rep: &mut Report, pn: u64, acked: u64, expected: u64) {
+    match vcore::panics::catch(|| wire_decode(pn, acked, expected)) {
+        Ok((got, size)) => {
+            if got != pn {
+                let d = pn - acked;
+                let class = match d {
+                    0..=127 => "delta<2^7",
+                    128..=32767 => "delta<2^15",
+                    32768..=8388607 => "delta<2^23",
+                    _ => "delta<2^31",
+                };
+                rep.violation(
+                    format!("C07.decode.width{size}:{class}"),
+                    format!("decode(encode(pn={pn}, acked={acked}), expected={expected}) = {got} (width {size})"),
+                    json!({"kind": "c07b", "pn": pn, "acked": acked, "expected": expected}),
+                );
+            }
+            rep.set("sweep_widths", size as u64);
+        }
+        Err(p) => {
+            let loc = vcore::panics::short_location(&p.location);
+            rep.violation(
+                format!("C07.decode.panic:{loc}"),
+                format!("encode/decode(pn={pn}, acked={acked}, expected={expected}) panicked: {} at {loc}", p.message),
+                json!({"kind": "c07b", "pn": pn, "acked": acked, "expected": expected}),
+            );
+        }
+    }
+}
+
+const MAX_PN: u64 = (1 << 62) - 1;
+
+fn sweep(rep: &mut Report, shard: u64, shards: u64, thorough: bool, rng: &mut Rng) {
+    let mut n = 0u64;
+    // exhaustive: every (pn, acked <= pn, expected in [acked+1, pn]) for pn < 2^8 (2^9 thorough)
+    let full = if thorough { 1024 } else { 384 };
+    for pn in (shard..full).step_by(shards as usize) {
+        for acked in 0..=pn {
+            let lo = if acked == 0 { 0 } else { acked + 1 }; // acked = 0 is also "nothing acknowledged yet"
+            for expected in lo..=pn {
+                check_triple(rep, pn, acked, expected);
+                n += 1;
+            }
+        }
+    }
+    rep.add("sweep_exhaustive_small_triples", n);
+    // exhaustive over pn < 2^12 x acked <= pn x expected in {acked+1, mid, pn}
+    let mut m = 0u64;
+    for pn in (shard..4096).step_by(shards as usize) {
+        for acked in 0..=pn {
+            if acked == pn && pn != 0 {
+                continue;
+            }
+            let lo = if acked == 0 { 0 } else { (acked + 1).min(pn) };
+            for expected in [lo, (acked + 1).min(pn), (acked + 1 + pn) / 2, pn] {
+                check_triple(rep, pn, acked, expected);
+                m += 1;
+            }
+        }
+    }
+    rep.add("sweep_exhaustive_pn_below_4096_triples", m);
+    // delta sweep x acked at width boundaries and near 2^62
+    let mut ackeds: Vec<u64> = vec![0, 1, 2, 0x7e, 0x7f, 0x80, 0xfe, 0xff, 0x100, 0x101];
+    for b in [15u32, 16, 23, 24, 31, 32, 33, 40, 48, 56, 61] {
+        for o in [-2i64, -1, 0, 1, 2] {
+            ackeds.push(((1u64 << b) as i64 + o) as u64);
+        }
+    }
+    for _ in 0..if thorough { 64 } else { 8 } {
+        ackeds.push(rng.next_u64() >> (2 + rng.below(60)));
+    }
+    let mut deltas: Vec<u64> = vec![(1 << 23) - 1, 1 << 23, (1 << 23) + 1, (1 << 31) - 1, (1 << 31) - 2, (1 << 24) - 1, 1 << 24, (1 << 30) + 7];
+    for _ in 0..if thorough { 4000 } else { 200 } {
+        deltas.push(rng.range(65537, (1 << 31) - 1));
+    }
+    let mut k = 0u64;
+    let mut one = |rep: &mut Report, delta: u64, acked: u64| {
+        // also "as close to 2^62 as this delta allows"
+        for acked in [acked.min(MAX_PN - delta), MAX_PN - delta, (MAX_PN - delta).saturating_sub(1)] {
+            let pn = acked + delta;
+            for expected in [acked + 1, acked + 1 + (delta - 1) / 2, pn] {
+                check_triple(rep, pn, acked, expected.min(pn));
+                k += 1;
+            }
+            if acked == 0 {
+                check_triple(rep, pn, 0, 0);
+                k += 1;
+            }
+        }
+    };
+    let stride = 1;
+    let mut d = 1 + shard * stride;
+    while d <= 65536 {
+        // every delta with a rotating subset of acked values (all of them in the thorough tier)
+        if thorough {
+            for &a in &ackeds {
+                one(rep, d, a);
+            }
+        } else {
+            for j in 0..6 {
+                let a = ackeds[((d * 7 + j * 11) % ackeds.len() as u64) as usize];
+                one(rep, d, a);
+            }
+        }
+        d += shards * stride;
+    }
+    for (i, &d) in deltas.iter().enumerate() {
+        if i as u64 % shards != shard {
+            continue;
+        }
+        for &a in &ackeds {
+            one(rep, d, a);
+        }
+    }
+    drop(one);
+    rep.add("sweep_delta_triples", k);
+    rep.evaluations += n + m + k;
+}
+
+// ---------------------------------------------------------------------------------------------
+// (a) ledger over real assemblies
+// ---------------------------------------------------------------------------------------------
+
+#[derive(Clone, Debug, PartialEq)]
+enum Item {
+    Ping,
+    Padding,
+    Ack { back: u64, range: u64 },
+    Crypto(usize),
+    MaxData(u64),
+    Stream(usize),
+    PathChallenge,
+    /// a frame that can never fit: the source yields nothing
+    Huge,
+    Close,
+}
+
+impl Item {
+    fn to_json(&self) -> Value {
+        match self {
+            Item::Ping => json!("ping"),
+            Item::Padding => json!("pad"),
+            Item::Ack { back, range } => json!(["ack", back, range]),
+            Item::Crypto(n) => json!(["crypto", n]),
+            Item::MaxData(n) => json!(["maxdata", n]),
+            Item::Stream(n) => json!(["stream", n]),
+            Item::PathChallenge => json!("pc"),
+            Item::Huge => json!("huge"),
+            Item::Close => json!("close"),
+        }
+    }
+    fn from_json(v: &Value) -> Item {
+        if let Some(s) = v.as_str() {
+            return match s {
+                "ping" => Item::Ping,
+                "pad" => Item::Padding,
+                "pc" => Item::PathChallenge,
+                "huge" => Item::Huge,
+                _ => Item::Close,
+            };
+        }
+        let n = v[1].as_u64().unwrap();
+        match v[0].as_str().unwrap() {
+            "ack" => Item::Ack { back: n, range: v[2].as_u64().unwrap() },
+            "crypto" => Item::Crypto(n as usize),
+            "maxdata" => Item::MaxData(n),
+            _ => Item::Stream(n as usize),
+        }
+    }
+}
+
+#[derive(Clone, Debug)]
+enum Op {
+    /// space: 0 initial, 1 handshake, 2 data(0-RTT), 3 data(1-RTT)
+    Asm { lane: u8, path: u8, trivial: bool, buf: usize, items: Vec<Item> },
+    Ack { space: u8, back: u64, range: u64 },
+    Loss { space: u8, back: u64 },
+    FastRetx { space: u8 },
+    Advance { ms: u64 },
+}
+
+impl Op {
+    fn to_json(&self) -> Value {
+        match self {
+            Op::Asm { lane, path, trivial, buf, items } => json!(["asm", lane, path, trivial, buf, items.iter().map(|i| i.to_json()).collect::<Vec<_>>()]),
+            Op::Ack { space, back, range } => json!(["ack", space, back, range]),
+            Op::Loss { space, back } => json!(["loss", space, back]),
+            Op::FastRetx { space } => json!(["fr", space]),
+            Op::Advance { ms } => json!(["adv", ms]),
+        }
+    }
+    fn from_json(v: &Value) -> Op {
+        let u = |i: usize| v[i].as_u64().unwrap();
+        match v[0].as_str().unwrap() {
+            "asm" => Op::Asm {
+                lane: u(1) as u8,
+                path: u(2) as u8,
+                trivial: v[3].as_bool().unwrap(),
+                buf: u(4) as usize,
+                items: v[5].as_array().unwrap().iter().map(Item::from_json).collect(),
+            },
+            "ack" => Op::Ack { space: u(1) as u8, back: u(2), range: u(3) },
+            "loss" => Op::Loss { space: u(1) as u8, back: u(2) },
+            "fr" => Op::FastRetx { space: u(1) as u8 },
+            _ => Op::Advance { ms: u(1) },
+        }
+    }
+}
+
+/// A data source in the shape of the production `Package`s: dumps each scripted frame through the frame's own
+/// `Package` impl (record_frame + put_frame); `Err(signals)` iff nothing was written.
+struct Script<'a> {
+    items: &'a [Item],
+    largest_rcvd: u64,
+}
+
+impl<T> Package<T> for Script<'_>
+where
+    T: BufMut + RecordFrame<Frame<NonData>, NonData> + RecordFrame<Frame<Bytes>, Bytes> + ?Sized,
+    for<'b> &'b mut T: WriteData<Bytes>,
+{
+    fn dump(&mut self, t: &mut T) -> Result<PacketContent, Signals> {
+        let origin = t.remaining_mut();
+        let mut content = PacketContent::default();
+        let mut sig = Signals::empty();
+        for it in self.items {
+            let r = match it {
+                Item::Ping => PingFrame.dump(t),
+                Item::Padding => PaddingFrame.dump(t),
+                Item::Ack { back, range } => {
+                    let l = self.largest_rcvd.saturating_sub(*back);
+                    let r = (*range).min(l);
+                    AckFrame::new(VarInt::from_u64(l).unwrap(), VarInt::from_u32(25), VarInt::from_u64(r).unwrap(), vec![], None).dump(t)
+                }
+                // like the production sources (crypto stream / data streams), size the data to what is left
+                Item::Crypto(n) => match fit(t.remaining_mut(), *n) {
+                    None => Err(Signals::CONGESTION),
+                    Some(n) => (CryptoFrame::new(VarInt::from_u32(1000), VarInt::try_from(n).unwrap()), Bytes::from(vec![0x5a; n])).dump(t),
+                },
+                Item::Huge => Err(Signals::CONGESTION),
+                Item::MaxData(v) => MaxDataFrame::new(VarInt::from_u64(*v).unwrap()).dump(t),
+                Item::Stream(n) => match fit(t.remaining_mut(), *n) {
+                    None => Err(Signals::CONGESTION),
+                    Some(n) => {
+                        let sid = qbase::sid::StreamId::new(qbase::role::Role::Client, qbase::sid::Dir::Bi, 1);
+                        let mut f = StreamFrame::new(sid, 77, n);
+                        f.set_len_bit(qbase::frame::Len::Explicit);
+                        (f, Bytes::from(vec![0xa5; n])).dump(t)
+                    }
+                },
+                Item::PathChallenge => PathChallengeFrame::from_slice(&[1, 2, 3, 4, 5, 6, 7, 8]).dump(t),
+                Item::Close => ConnectionCloseFrame::new_quic(ErrorKind::None, FrameType::Padding.into(), "bye").dump(t),
+            };
+            match r {
+                Ok(c) => content += c,
+                Err(s) => sig |= s,
+            }
+        }
+        (origin != t.remaining_mut()).then_some(content).ok_or(sig)
+    }
+}
+
+/// data bytes that fit next to a frame header of at most 25 bytes
+fn fit(remaining: usize, want: usize) -> Option<usize> {
+    (remaining > 25).then(|| want.min(remaining - 25))
+}
+
+const SPACE_NAMES: [&str; 3] = ["initial", "handshake", "data"];
+
+fn space_of(lane: u8) -> usize {
+    match lane {
+        0 => 0,
+        1 => 1,
+        _ => 2,
+    }
+}
+
+struct Keyring {
+    initial: DirectionalKeys,
+    handshake: DirectionalKeys,
+    zero_rtt: DirectionalKeys,
+    one_rtt: DirectionalKeys,
+    phase: KeyPhaseBit,
+}
+
+struct Fail {
+    step: usize,
+    sig: String,
+    what: String,
+}
+
+#[derive(Default)]
+struct Stats {
+    built: [u64; 3],
+    abandoned_at_new: u64,
+    abandoned_empty: u64,
+    built_trivial_only: u64,
+    built_with_frames: u64,
+    built_closing: u64,
+    acked_frames: u64,
+    lost_frames: u64,
+    retx_frames: u64,
+    acks_accepted: u64,
+    widths: [u64; 5],
+    max_pn: u64,
+    interleaved_paths: u64,
+    zero_and_one_rtt_share: u64,
+    gaps: u64,
+    shape: u64,
+}
+
+#[derive(Clone, Copy, PartialEq)]
+enum Kind {
+    Frames,
+    TrivialOnly,
+    Closing,
+}
+
+struct SpaceLedger {
+    last: Option<(u64, Kind, u8, u8)>, // pn, kind, path, lane
+    acked: Option<u64>,
+    rotated_since_last: bool,
+}
+
+async fn run_history(keys: &Keyring, ops: &[Op], st: &mut Stats) -> Option<Fail> {
+    let ji: ArcSentJournal<CryptoFrame> = ArcSentJournal::with_capacity(4);
+    let jh: ArcSentJournal<CryptoFrame> = ArcSentJournal::with_capacity(4);
+    let jd: ArcSentJournal<GuaranteedFrame> = ArcSentJournal::with_capacity(4);
+    let mut led: Vec<SpaceLedger> = (0..3).map(|_| SpaceLedger { last: None, acked: None, rotated_since_last: false }).collect();
+    let dcid = [ConnectionId::from_slice(&[1, 2, 3, 4, 5, 6, 7, 8]), ConnectionId::from_slice(&[9, 9, 9])];
+    let scid = ConnectionId::from_slice(&[7; 5]);
+    let timeouts = [(Duration::from_millis(40), Duration::from_millis(120)), (Duration::from_millis(350), Duration::from_millis(1100))];
+    let mut buffer = vec![0u8; 1500];
+    let mut largest_rcvd = 3u64;
+    for (step, op) in ops.iter().enumerate() {
+        match op {
+            Op::Asm { lane, path, trivial, buf, items } => {
+                let sp = space_of(*lane);
+                let p = *path as usize & 1;
+                let (retran, expire) = timeouts[p];
+                let b = &mut buffer[..*buf];
+                largest_rcvd += 1;
+                let mut script = Script { items, largest_rcvd };
+                let ptype = [PType::Initial, PType::Handshake, PType::ZeroRtt, PType::OneRtt][*lane as usize & 3];
+                let (po, tx) = match ptype {
+                    PType::Initial => (payload_offset(ptype, dcid[p].len(), scid.len(), 3), &keys.initial),
+                    PType::Handshake => (payload_offset(ptype, dcid[p].len(), scid.len(), 0), &keys.handshake),
+                    PType::ZeroRtt => (payload_offset(ptype, dcid[p].len(), scid.len(), 0), &keys.zero_rtt),
+                    PType::OneRtt => (payload_offset(ptype, dcid[p].len(), 0, 0), &keys.one_rtt),
+                };
+                // Result of one assembly: None = abandoned, Some((size, pn, claimed pn at creation))
+                macro_rules! assemble {
+                    ($w:expr) => {{
+                        match $w {
+                            Err(_) => {
+                                st.abandoned_at_new += 1;
+                                None
+                            }
+                            Ok(mut w) => {
+                                let claimed = w.packet_number();
+                                match w.assemble_packet(&mut Packages((&mut script, PadTo20))) {
+                                    Err(_) => {
+                                        drop(w);
+                                        st.abandoned_empty += 1;
+                                        None
+                                    }
+                                    Ok(_) => {
+                                        let (size, info) = w.encrypt_and_protect_packet();
+                                        Some((size, info.packet_number(), claimed))
+                                    }
+                                }
+                            }
+                        }
+                    }};
+                }
+                let hb = LongHeaderBuilder::with_cid(dcid[p], scid);
+                let r = vcore::panics::catch(|| match (ptype, *trivial) {
+                    (PType::Initial, false) => assemble!(PacketWriter::new_long(hb.initial(vec![1, 2, 3]), b, tx.clone(), &ji, retran, expire)),
+                    (PType::Initial, true) => assemble!(TrivialPacketWriter::new_long(hb.initial(vec![1, 2, 3]), b, tx.clone(), &ji)),
+                    (PType::Handshake, false) => assemble!(PacketWriter::new_long(hb.handshake(), b, tx.clone(), &jh, retran, expire)),
+                    (PType::Handshake, true) => assemble!(TrivialPacketWriter::new_long(hb.handshake(), b, tx.clone(), &jh)),
+                    (PType::ZeroRtt, false) => assemble!(PacketWriter::new_long(hb.zero_rtt(), b, tx.clone(), &jd, retran, expire)),
+                    (PType::ZeroRtt, true) => assemble!(TrivialPacketWriter::new_long(hb.zero_rtt(), b, tx.clone(), &jd)),
+                    (PType::OneRtt, false) => {
+                        assemble!(PacketWriter::new_short(OneRttHeader::new(SpinBit::Zero, dcid[p]), b, tx.clone(), keys.phase, &jd, retran, expire))
+                    }
+                    (PType::OneRtt, true) => assemble!(TrivialPacketWriter::new_short(OneRttHeader::new(SpinBit::Zero, dcid[p]), b, tx.clone(), keys.phase, &jd)),
+                });
+                let built = match r {
+                    Ok(x) => x,
+                    Err(pn) => {
+                        let loc = vcore::panics::short_location(&pn.location);
+                        return Some(Fail { step, sig: format!("C07.panic.assemble:{loc}"), what: format!("assembly panicked: {} at {loc}", pn.message) });
+                    }
+                };
+                let Some((size, pn, claimed)) = built else { continue };
+                let sname = SPACE_NAMES[sp];
+                let reliable = items.iter().any(|i| match i {
+                    Item::Crypto(_) => true,
+                    Item::MaxData(_) | Item::Stream(_) => sp == 2,
+                    _ => false,
+                });
+                let kind = if *trivial {
+                    Kind::Closing
+                } else if reliable {
+                    Kind::Frames
+                } else {
+                    Kind::TrivialOnly
+                };
+                if pn != claimed {
+                    return Some(Fail { step, sig: format!("C07.pn-changed.{sname}"), what: format!("writer announced pn {claimed}, built packet reports {pn}") });
+                }
+                // the nonce really used: open the wire image with the sender's keys
+                let wire = &buffer[..size];
+                let opened = match ref_open(wire, po, tx, pn) {
+                    Ok(o) => o,
+                    Err(e) => {
+                        return Some(Fail {
+                            step,
+                            sig: format!("C07.wire-nonce.{sname}"),
+                            what: format!("built packet reported as pn {pn} does not open with that number (rustls opener: {e})"),
+                        });
+                    }
+                };
+                let (_, pn_len, trunc, _) = opened;
+                let l = &mut led[sp];
+                if let Some((prev, pkind, ppath, plane)) = l.last {
+                    if pn <= prev {
+                        let pk = match pkind {
+                            Kind::Frames => "frames",
+                            Kind::TrivialOnly => "trivial-only",
+                            Kind::Closing => "closing",
+                        };
+                        let rel = if pn == prev { "reuse" } else { "regress" };
+                        return Some(Fail {
+                            step,
+                            sig: format!("C07.{rel}.{sname}:prev-{pk}{}", if l.rotated_since_last { "+rotate" } else { "" }),
+                            what: format!("{sname} space: built packet carries pn {pn} after a built packet with pn {prev} (previous packet: {pk})"),
+                        });
+                    }
+                    if pn > prev + 1 {
+                        st.gaps += 1;
+                    }
+                    if ppath != *path {
+                        st.interleaved_paths += 1;
+                    }
+                    if plane != *lane && sp == 2 {
+                        st.zero_and_one_rtt_share += 1;
+                    }
+                }
+                // truncation: a receiver that has everything the sender knows to be acked reconstructs pn
+                let enc = match pn_len {
+                    1 => PacketNumber::U8(trunc as u8),
+                    2 => PacketNumber::U16(trunc as u16),
+                    3 => PacketNumber::U24(trunc as u32),
+                    _ => PacketNumber::U32(trunc as u32),
+                };
+                let lo = l.acked.map(|a| a + 1).unwrap_or(0).min(pn);
+                for expected in [lo, (lo + pn) / 2, pn] {
+                    let got = enc.decode(expected);
+                    if got != pn {
+                        return Some(Fail {
+                            step,
+                            sig: format!("C07.truncation.{sname}:width{pn_len}"),
+                            what: format!("pn {pn} written as {pn_len} bytes ({trunc:#x}) reconstructs to {got} at a receiver expecting {expected} (largest acked {:?})", l.acked),
+                        });
+                    }
+                }
+                l.last = Some((pn, kind, *path, *lane));
+                l.rotated_since_last = false;
+                st.built[sp] += 1;
+                st.widths[pn_len] += 1;
+                st.max_pn = st.max_pn.max(pn);
+                match kind {
+                    Kind::Frames => st.built_with_frames += 1,
+                    Kind::TrivialOnly => st.built_trivial_only += 1,
+                    Kind::Closing => st.built_closing += 1,
+                }
+                st.shape = (st.shape ^ (sp as u64 * 8 + kind as u64 + 1)).wrapping_mul(0x100000001b3);
+            }
+            Op::Ack { space, back, range } => {
+                let sp = *space as usize % 3;
+                let Some((last, ..)) = led[sp].last else { continue };
+                let largest = last.saturating_sub(*back);
+                let r = (*range).min(largest);
+                let ack = AckFrame::new(VarInt::from_u64(largest).unwrap(), VarInt::from_u32(10), VarInt::from_u64(r).unwrap(), vec![], None);
+                let res = vcore::panics::catch(|| {
+                    macro_rules! go {
+                        ($j:expr) => {{
+                            let mut g = $j.rotate();
+                            if g.update_largest(&ack).is_ok() {
+                                let mut n = 0u64;
+                                for pn in ack.iter().flat_map(|r| r.rev()) {
+                                    n += g.on_packet_acked(pn).count() as u64;
+                                }
+                                Some(n)
+                            } else {
+                                None
+                            }
+                        }};
+                    }
+                    match sp {
+                        0 => go!(ji),
+                        1 => go!(jh),
+                        _ => go!(jd),
+                    }
+                });
+                match res {
+                    Ok(Some(n)) => {
+                        st.acked_frames += n;
+                        st.acks_accepted += 1;
+                        led[sp].acked = Some(led[sp].acked.map_or(largest, |a| a.max(largest)));
+                    }
+                    Ok(None) => {}
+                    Err(p) => {
+                        let loc = vcore::panics::short_location(&p.location);
+                        return Some(Fail { step, sig: format!("C07.panic.rotate:{loc}"), what: format!("ack handling panicked: {} at {loc}", p.message) });
+                    }
+                }
+                led[sp].rotated_since_last = true;
+                st.shape = (st.shape ^ 0x77).wrapping_mul(0x100000001b3);
+            }
+            Op::Loss { space, back } => {
+                let sp = *space as usize % 3;
+                let Some((last, ..)) = led[sp].last else { continue };
+                let pn = last.saturating_sub(*back);
+                let res = vcore::panics::catch(|| match sp {
+                    0 => ji.rotate().may_loss_packet(pn).count(),
+                    1 => jh.rotate().may_loss_packet(pn).count(),
+                    _ => jd.rotate().may_loss_packet(pn).count(),
+                });
+                match res {
+                    Ok(n) => st.lost_frames += n as u64,
+                    Err(p) => {
+                        let loc = vcore::panics::short_location(&p.location);
+                        return Some(Fail { step, sig: format!("C07.panic.rotate:{loc}"), what: format!("loss handling panicked: {} at {loc}", p.message) });
+                    }
+                }
+                led[sp].rotated_since_last = true;
+            }
+            Op::FastRetx { space } => {
+                let sp = *space as usize % 3;
+                let res = vcore::panics::catch(|| match sp {
+                    0 => ji.rotate().fast_retransmit().count(),
+                    1 => jh.rotate().fast_retransmit().count(),
+                    _ => jd.rotate().fast_retransmit().count(),
+                });
+                match res {
+                    Ok(n) => st.retx_frames += n as u64,
+                    Err(p) => {
+                        let loc = vcore::panics::short_location(&p.location);
+                        return Some(Fail { step, sig: format!("C07.panic.rotate:{loc}"), what: format!("fast_retransmit panicked: {} at {loc}", p.message) });
+                    }
+                }
+                led[sp].rotated_since_last = true;
+            }
+            Op::Advance { ms } => {
+                tokio::time::advance(Duration::from_millis(*ms)).await;
+            }
+        }
+    }
+    None
+}
+
+fn gen_items(rng: &mut Rng, lane: u8, trivial: bool) -> Vec<Item> {
+    if trivial {
+        // closing packets: CONNECTION_CLOSE (+ nothing else); sometimes the frame does not fit
+        return vec![Item::Close];
+    }
+    let zero = lane == 2;
+    let data = lane >= 2;
+    let mut v = vec![];
+    match rng.below(10) {
+        // source has nothing to send -> abandoned before anything is recorded
+        0 => {}
+        1 => v.push(Item::Huge),
+        // trivial-only packets: ack-only, ping-only, padding
+        2 | 3 => {
+            if zero {
+                v.push(Item::Ping)
+            } else {
+                v.push(Item::Ack { back: rng.below(3), range: rng.below(4) })
+            }
+        }
+        4 => v.push(Item::Ping),
+        5 => {
+            if lane == 3 {
+                v.push(Item::PathChallenge)
+            } else {
+                v.push(Item::Padding)
+            }
+        }
+        // n reliable frames, possibly mixed with trivial ones
+        _ => {
+            let n = rng.range(1, 4);
+            if !zero && rng.bool() {
+                v.push(Item::Ack { back: rng.below(3), range: rng.below(4) });
+            }
+            for _ in 0..n {
+                v.push(if !data {
+                    Item::Crypto(rng.range(1, 300) as usize)
+                } else {
+                    match rng.below(3) {
+                        0 if !zero => Item::Crypto(rng.range(1, 200) as usize),
+                        1 => Item::MaxData(rng.below(1 << 30)),
+                        _ => Item::Stream(rng.range(1, 300) as usize),
+                    }
+                });
+            }
+            if rng.chance(1, 4) {
+                v.push(Item::Ping);
+            }
+        }
+    }
+    v
+}
+
+fn gen_history(rng: &mut Rng) -> Vec<Op> {
+    let n = rng.range(10, 120);
+    let mut ops = vec![];
+    let mut path = 0u8;
+    // a history concentrates on a few lanes so sequences get long
+    let lanes: Vec<u8> = match rng.below(5) {
+        0 => vec![0, 1],
+        1 => vec![2, 3],
+        2 => vec![3],
+        3 => vec![0, 1, 3],
+        _ => vec![0, 1, 2, 3],
+    };
+    let closing_from = if rng.chance(1, 3) { rng.range(n / 2, n) } else { u64::MAX };
+    for i in 0..n {
+        match rng.below(12) {
+            0 => ops.push(Op::Ack { space: space_of(*rng.pick(&lanes)) as u8, back: rng.below(4), range: rng.below(6) }),
+            1 => ops.push(Op::Loss { space: space_of(*rng.pick(&lanes)) as u8, back: rng.below(5) }),
+            2 => ops.push(Op::FastRetx { space: space_of(*rng.pick(&lanes)) as u8 }),
+            3 => ops.push(Op::Advance { ms: *rng.pick(&[1, 10, 39, 41, 100, 121, 349, 351, 1099, 1101, 5000]) }),
+            _ => {
+                if rng.chance(2, 3) {
+                    path ^= 1; // the two paths alternate
+                }
+                let lane = *rng.pick(&lanes);
+                let trivial = i >= closing_from;
+                let items = gen_items(rng, lane, trivial);
+                let buf = match rng.below(12) {
+                    0 => rng.range(0, 45) as usize, // too small for header + 20: refused at creation
+                    1 => rng.range(45, 90) as usize,
+                    2 => 1200,
+                    _ => rng.range(90, 1500) as usize,
+                };
+                ops.push(Op::Asm { lane, path, trivial, buf, items });
+            }
+        }
+    }
+    ops
+}
+
+/// One long run without acknowledgements so that the truncation width grows beyond two bytes
+/// (pn - largest_acked >= 2^15), then an ack (width shrinks again), with abandoned assemblies sprinkled in.
+fn gen_marathon(rng: &mut Rng) -> Vec<Op> {
+    let lane = *rng.pick(&[0u8, 1, 3]);
+    let n = 33_500 + rng.below(1500);
+    let mut ops = Vec::with_capacity(n as usize + 64);
+    let mut path = 0;
+    for i in 0..n {
+        if rng.chance(1, 50) {
+            ops.push(Op::Asm { lane, path, trivial: false, buf: 1200, items: vec![] });
+        }
+        if rng.chance(1, 3) {
+            path ^= 1;
+        }
+        let items = if i % 97 == 0 { vec![Item::Crypto(10)] } else if i % 2 == 0 { vec![Item::Ping] } else { vec![Item::Ack { back: 0, range: 0 }] };
+        ops.push(Op::Asm { lane, path, trivial: false, buf: 120, items });
+        if i % 5000 == 4999 {
+            ops.push(Op::Advance { ms: 2000 });
+            ops.push(Op::FastRetx { space: space_of(lane) as u8 });
+        }
+    }
+    ops.push(Op::Ack { space: space_of(lane) as u8, back: rng.below(3), range: rng.below(3) });
+    for _ in 0..20 {
+        ops.push(Op::Asm { lane, path, trivial: false, buf: 120, items: vec![Item::Ping] });
+    }
+    ops
+}
+
+fn keyring() -> Result<Keyring, String> {
+    let hs = pktkeys::handshake(0)?;
+    let ic = pktkeys::initial_keys(&[8, 7, 6, 5, 4, 3, 2, 1], rustls::Side::Client);
+    let (z, _) = pktkeys::directional_pair(&hs.quic_suite, b"zero-rtt-secret");
+    let (hpk, pk) = hs.client.one_rtt.get_local_keys().ok_or("no 1-RTT keys")?;
+    let (phase, pk) = pk.lock_guard().get_local();
+    Ok(Keyring {
+        initial: ic.local.clone(),
+        handshake: hs.client.handshake.local.clone(),
+        zero_rtt: z,
+        one_rtt: DirectionalKeys { header: hpk, packet: pk },
+        phase,
+    })
+}
+
+fn run_ops(rep: &mut Report, rt: &tokio::runtime::Runtime, keys: &Keyring, ops: &[Op], mode: &str) -> Stats {
+    let mut st = Stats { shape: 0xcbf29ce484222325, ..Default::default() };
+    let fail = rt.block_on(run_history(keys, ops, &mut st));
+    if let Some(f) = fail {
+        rep.violation(
+            f.sig,
+            format!("step {} of {} history: {}", f.step, mode, f.what),
+            json!({"kind": "c07a", "ops": ops[..=f.step].iter().map(|o| o.to_json()).collect::<Vec<_>>()}),
+        );
+    }
+    st
+}
+
+fn new_rt() -> tokio::runtime::Runtime {
+    tokio::runtime::Builder::new_current_thread().enable_time().start_paused(true).build().expect("runtime")
+}
+
+pub fn run(args: &Args, rep: &mut Report) {
+    rep.rule = "(a) history = sequence of packet assemblies (real tx::PacketWriter / TrivialPacketWriter on one journal per space, two paths), \
+                acks, losses, fast retransmits and virtual-time advances; distinct = distinct sequences of (space, built-packet kind, rotate) events; \
+                non-trivial = at least one abandoned assembly AND one trivial-only packet AND one rotate operation between built packets. \
+                (b) each (pn, largest acked, expected) triple is one evaluation"
+        .into();
+    if let Some(path) = args.get("replay") {
+        let v: Value = serde_json::from_str(&std::fs::read_to_string(path).unwrap()).unwrap();
+        let v = if v.get("replay").is_some() { v["replay"].clone() } else { v };
+        if v["kind"] == "c07b" {
+            check_triple(rep, v["pn"].as_u64().unwrap(), v["acked"].as_u64().unwrap(), v["expected"].as_u64().unwrap());
+        } else {
+            let ops: Vec<Op> = v["ops"].as_array().unwrap().iter().map(Op::from_json).collect();
+            match keyring() {
+                Ok(k) => {
+                    run_ops(rep, &new_rt(), &k, &ops, "replay");
+                }
+                Err(e) => rep.inconclusive(format!("keys: {e}")),
+            }
+        }
+        rep.evaluations += 1;
+        return;
+    }
+    let thorough = args.get("tier") == Some("thorough");
+    let shard = args.u64("shard", 0);
+    let shards = args.u64("shards", 1);
+    let mut rng = Rng::new(args.seed() ^ 0xc07).fork(shard);
+    // (b)
+    sweep(rep, shard, shards, thorough, &mut rng);
+    // (a)
+    let keys = match keyring() {
+        Ok(k) => k,
+        Err(e) => {
+            rep.inconclusive(format!("rustls handshake failed: {e}"));
+            return;
+        }
+    };
+    let n = args.budget(if thorough { 300_000 } else { 20_000 });
+    let rt = new_rt();
+    for i in 0..=n {
+        // the last history of every shard is the marathon
+        let ops = if i == n { gen_marathon(&mut rng) } else { gen_history(&mut rng) };
+        let st = run_ops(rep, &rt, &keys, &ops, if i == n { "marathon" } else { "random" });
+        rep.evaluations += 1;
+        for (k, name) in SPACE_NAMES.iter().enumerate() {
+            rep.add(&format!("built_packets_{name}"), st.built[k]);
+        }
+        rep.add("abandoned_writer_refused_buffer", st.abandoned_at_new);
+        rep.add("abandoned_nothing_to_send", st.abandoned_empty);
+        rep.add("built_trivial_only(Skipped record)", st.built_trivial_only);
+        rep.add("built_with_reliable_frames", st.built_with_frames);
+        rep.add("built_closing(TrivialPacketWriter)", st.built_closing);
+        rep.add("frames_fed_back_acked", st.acked_frames);
+        rep.add("frames_fed_back_lost", st.lost_frames);
+        rep.add("frames_fed_back_fast_retransmit", st.retx_frames);
+        rep.add("acks_accepted", st.acks_accepted);
+        rep.add("pn_gaps_between_built_packets(abandoned assemblies burning numbers)", st.gaps);
+        rep.add("consecutive_built_packets_on_different_paths", st.interleaved_paths);
+        rep.add("consecutive_built_packets_0rtt_vs_1rtt_in_data_space", st.zero_and_one_rtt_share);
+        for w in 1..=4 {
+            rep.add(&format!("wire_pn_width_{w}"), st.widths[w]);
+        }
+        rep.max("max_pn_reached", st.max_pn);
+        rep.set("ledger_shapes", st.shape);
+        if st.abandoned_at_new + st.abandoned_empty > 0 && st.built_trivial_only > 0 && st.acks_accepted > 0 {
+            rep.distinct(st.shape);
+        }
+        if i < 2 {
+            rep.sample(json!({"mode": "ledger", "n_ops": ops.len(), "first_ops": ops.iter().take(8).map(|o| o.to_json()).collect::<Vec<_>>()}));
+        }
+    }
+    rep.add("ledger_histories", n);
 }
